@@ -129,7 +129,7 @@ fn main() {
         let ls = lines.clone();
         let from = next;
         std::thread::Builder::new()
-            .stack_size(64 << 20)
+            .stack_size(std::env::var("BLH_STACK_MB").ok().and_then(|s| s.parse::<usize>().ok()).unwrap_or(8) << 20)
             .spawn(move || {
                 for i in from..ls.len() {
                     let r = catch_unwind(AssertUnwindSafe(|| run_case(&ls[i])));
